@@ -77,10 +77,32 @@ def _variants(f):
     return out
 
 
+def _warm_with_other_parameters(f0):
+    """calls made earlier in the same process with OTHER parameter values must not influence a later call (a result or weight cache
+    keyed by too few of the parameters would): every numeric parameter is perturbed once before the comparison starts"""
+    import inspect
+    try:
+        params = inspect.signature(f0).parameters
+    except (TypeError, ValueError):
+        return
+    c = indic.candles(300, 11, 'random')
+    for k, v in params.items():
+        d = v.default
+        if isinstance(d, bool) or not isinstance(d, (int, float)) or k in ('sequential',):
+            continue
+        other = d + 1 if isinstance(d, int) else d * 1.7 + 0.05
+        for seq in (False, True):
+            try:
+                f0(c, **{k: other}, sequential=seq)
+            except Exception:
+                pass
+
+
 def check_at(name, W, ns):
     import os
     os.environ.setdefault('PYTEST_CURRENT_TEST', 'verif-replay')      # configuration look-ups are not memoized
     f0 = indic.get(name)
+    _warm_with_other_parameters(f0)
     for kw in _variants(f0):
         d = _check_at(name, (lambda *a, **k: f0(*a, **dict(kw, **k))), W, ns, kw)
         if d:
